@@ -383,6 +383,9 @@ def write_evidence(ctx, cov, assumptions, violations):
                    "cryptographic primitives of the Go standard library are trusted"],
                wall_s=round(time.time() - ctx.t0, 2), violations=violations)
     p = os.path.join(VERIF, "evidence", ctx.id + ".json")
+    if os.path.realpath(REPO) != "/repo" or getattr(ctx, "replaying", False):
+        # a run against another tree (mutant, scratch worktree) or a replay never overwrites the committed evidence
+        p = os.path.join(VERIF, ".work", "evidence-alt-%s.json" % ctx.id)
     tmp = p + ".tmp%d" % os.getpid()
     with open(tmp, "w") as f:
         json.dump(doc, f, indent=1)
